@@ -26,13 +26,18 @@ def base_family(rng):
     # constructor arguments incl. pairs with equal builtin hash(): hash(-1) == hash(-2), hash(n) == hash(n + 2**61 - 1)
     cargs = rng.choice([None, 1, 2, -1, 3, 'a'])
 
-    def mk(parts_ids, fx=None, carg=cargs, wire=None):
+    def mk(parts_ids, fx=None, carg=cargs, wire=None, fx_part=0):
         parts = []
         for j, ids in enumerate(parts_ids):
             src = {'k': 'source', 'cls': f'P{j}', 'ids': ids,
-                   'fields': {'x': {'args': ['i'], 'f': (fx if (fx and j == 0) else 'P.x') if rng_same else f'P{j}.x'},
-                              'y': {'args': ['i'], 'f': f'P{j}.y'}},
+                   'fields': {'x': {'args': ['i'], 'f': (fx if (fx and j == fx_part) else 'P.x') if rng_same else (fx if (fx and j == fx_part) else f'P{j}.x')},
+                              'y': {'args': ['i'], 'f': f'P{j}.y'},
+                              'kk': {'args': ['i'], 'f': 'P.kk', 'table': [[[i], 'g'] for i in IDS + ['zz']]}},
                    'params': {}, 'cargs': {}, 'defaults': {}}
+            if rng_inner:
+                # every branch is continued by an instance of ONE Transform class: its edge objects sit at sibling positions
+                src = {'k': 'chain', 'flavour': 'chain', 'layers': [src, {'k': 'transform', 'cls': 'TI', 'fields': {'x': {'args': ['x'], 'f': 'TI.x'}},
+                                                                         'params': {}, 'cargs': {}, 'defaults': {}, 'inherit': True}]}
             parts.append(src)
         d = {'k': 'merge', 'parts': parts} if len(parts) > 1 or rng_merge else parts[0]
         layers = [d]
@@ -42,6 +47,7 @@ def base_family(rng):
         return {'k': 'chain', 'flavour': 'chain', 'layers': layers}, (wire or ['x'])
     rng_same = rng.random() < 0.5       # all parts compute x with the same function: only the routing distinguishes them
     rng_merge = rng.random() < 0.5
+    rng_inner = rng.random() < 0.4
     variants = [('base',) + mk(parts_ids)]
     # re-route one id inside a fixed id set
     if n_parts >= 2:
@@ -57,6 +63,8 @@ def base_family(rng):
             shifted = [[f'i{int(x[1:]) + 1}' for x in ids] for ids in parts_ids]
             variants.append(('shift',) + mk([sorted(s) for s in shifted]))
     variants.append(('function',) + mk(parts_ids, fx='P.x#2'))
+    if n_parts >= 2:
+        variants.append(('function-last',) + mk(parts_ids, fx='P.x#3', fx_part=n_parts - 1))
     if cargs is not None:
         # the same Transform class (shared edge objects), another instance argument
         other = {1: 6, 2: 7, -1: -2, 3: 3 + 2 ** 61 - 1, 'a': 'b'}[cargs]
@@ -78,6 +86,7 @@ def run_family(seed):
     from connectome import Filter
     from connectome.engine import Details
     recs = []
+    do_group = rng.random() < 0.5
     for what, desc, wire in variants:
         try:
             # shared layer objects: identical sub-descriptions are one object (transforms reused on different sources)
@@ -103,7 +112,22 @@ def run_family(seed):
                     table[i] = canon(val_to_json(g(i), world))
                 except Exception as e:
                     table[i] = 'ERR ' + exc_name(e)
-            recs.append({'what': what, 'desc': desc, 'wire': wire, 'hash': h, 'table': table, 'graph': g})
+            rec_ = {'what': what, 'desc': desc, 'wire': wire, 'hash': h, 'table': table, 'graph': g}
+            # the same sub-pipeline under GroupBy (one group): the digest of a grouped field keys what GroupBy derives from it
+            try:
+                if not (do_group and what in ('base', 'function', 'function-last', 'argument', 'reroute', 'same')):
+                    raise LookupError('skipped')
+                from connectome import GroupBy
+                from .suite_pickle import digest_of
+                grouped = base >> GroupBy('kk')
+                fx_ = grouped._compile('x')
+                rec_['g_digest'] = digest_of(fx_, ['g'])
+                rec_['g_value'] = canon(val_to_json(fx_('g'), world))
+            except LookupError:
+                pass
+            except Exception as e:
+                rec_['g_err'] = exc_name(e)
+            recs.append(rec_)
         except Exception as e:
             recs.append({'what': what, 'desc': desc, 'wire': wire, 'error': exc_name(e) + ' ' + str(e)[:100]})
     problems = []
@@ -123,25 +147,35 @@ def run_family(seed):
                                  'msg': f'equal static graph hashes ({rs[0]["what"]} vs {r["what"]}) but different functions of the id: '
                                         f'at {diff!r}: {rs[0]["table"][diff][:120]} vs {r["table"][diff][:120]}'})
                 break
+    ggroups = {}
+    for r in recs:
+        if 'g_digest' in r:
+            ggroups.setdefault(r['g_digest'], []).append(r)
+    for key, rs in ggroups.items():
+        for r in rs[1:]:
+            if r['g_value'] != rs[0]['g_value']:
+                problems.append({'a': {'what': rs[0]['what'], 'desc': rs[0]['desc']}, 'b': {'what': r['what'], 'desc': r['desc']},
+                                 'msg': f'under GroupBy: equal digests of the grouped field x ({rs[0]["what"]} vs {r["what"]}) but different values: '
+                                        f'{rs[0]["g_value"][:120]} vs {r["g_value"][:120]}'})
+                break
     # a rebuild must not change the static hash (C07 aspect, cheap to check here)
     byw = {r['what']: r for r in recs if 'hash' in r}
     if 'base' in byw and 'same' in byw and byw['base']['hash'] != byw['same']['hash']:
         problems.append({'a': {'desc': byw['base']['desc']}, 'msg': 'rebuilding the same sub-pipeline changed its static graph hash'})
-    # model correspondence: extract the graphs and let the Lean model hash them
-    model_req, model_real = None, []
-    try:
-        ex = Extractor(world)
-        steps = []
-        for r in recs:
-            if 'graph' in r:
-                out, ins = ex.graph(r['graph'])
-                steps.append({'t': 'hash_graph', 'out': out})
-                model_real.append(hash_to_json(r['hash'].value, world))
-        # every extracted graph has the single input `id`; the union of leaves is declared
-        leaves = [i for i, n in enumerate(ex.nodes) if n['edge'] is None]
-        model_req = {'op': 'vm', **ex.case(leaves), 'steps': steps}
-    except Unsupported:
-        pass
+    # model correspondence: extract the graphs and let the Lean model hash them (one request per graph: the model walks
+    # all the nodes it is given)
+    model_req, model_real = [], []
+    for r in recs:
+        if 'graph' not in r:
+            continue
+        try:
+            ex = Extractor(world)
+            out, ins = ex.graph(r['graph'])
+            leaves = [i for i, n in enumerate(ex.nodes) if n['edge'] is None]
+            model_req.append({'op': 'vm', **ex.case(leaves), 'steps': [{'t': 'hash_graph', 'out': out}]})
+            model_real.append(hash_to_json(r['hash'].value, world))
+        except Unsupported:
+            pass
     return {'variants': len(recs), 'pairs': pairs, 'groups': len(groups), 'problems': problems,
             'model_req': model_req, 'model_real': model_real, 'kinds': [r['what'] for r in recs],
             'errors': [r['error'] for r in recs if 'error' in r]}
@@ -150,21 +184,19 @@ def run_family(seed):
 def run_shard(args):
     seed, n = args
     fams = [run_family(seed * 50021 + i) for i in range(n)]
-    reqs = [f['model_req'] for f in fams if f['model_req']]
+    reqs = [q for f in fams for q in f['model_req']]
     answers = driver.run_lines(reqs)
     model_bad = []
     it = iter(answers)
     for f in fams:
-        if not f['model_req']:
-            continue
-        ans = next(it)
-        if 'error' in ans:
-            model_bad.append({'diff': ans['error']})
-            continue
-        for real, m in zip(f['model_real'], ans['results']):
+        for real in f['model_real']:
+            ans = next(it)
+            if 'error' in ans:
+                model_bad.append({'diff': ans['error']})
+                continue
+            m = ans['results'][0]
             if canon({'ok': real}) != canon(m['h']):
                 model_bad.append({'real': real, 'model': m['h']})
-                break
     stats = {'families': len(fams), 'variants': sum(f['variants'] for f in fams), 'groups': sum(f['groups'] for f in fams),
              'equal_hash_pairs': sum(f['pairs'] for f in fams), 'build_errors': sum(len(f['errors']) for f in fams), 'kinds': {}}
     for f in fams:
